@@ -9,7 +9,7 @@
      parsing of that key and of the signature: [verifies subject issuer];
    - the clock: [now] (seconds since the epoch, as returned by OffsetDateTime::unix_timestamp).
    What is modelled: everything else, in the code's order, with its quirks (first matching
-   validator, `found` flags, `all` on an empty list, first candidate wins, only the first
+   validator, `found` flags, first candidate wins, only the first
    certificate of the x5chain is looked at).  Literals come from Gen/X509Consts.v. *)
 From Isomdl Require Import Lib.Bytes Gen.X509Consts.
 Open Scope N_scope.
@@ -68,7 +68,7 @@ Definition end_entity_certificate (x : x5chain) : cert := x_first x.
 (* ---------- error kinds (the implementation produces strings; these are their shapes) ---------- *)
 
 Inductive ext_name := XSki | XEku | XKu | XBc | XCrl | XIan.
-Inductive verr := VDecode | VValue | VCrlEmpty | VCrlIssuer | VCrlReasons | VCrlPoint.
+Inductive verr := VDecode | VValue | VCrlEmpty | VCrlIssuer | VCrlReasons | VCrlPoint | VIanEmpty.
 Inductive name_attr := NCountry | NState.
 Inductive ekind :=
 | KExpired | KNotYetValid
@@ -179,7 +179,8 @@ Definition v_validate (key : bytes) (v : validator) (d : decoded) : list verr :=
   | GCrl, DCrlDp points =>
     if is_nil points then [VCrlEmpty] else flat_map crl_point_errors points
   | GIan, DIssuerAltName names =>
-    if negb (forallb gn_is_rfc822_or_uri names) then [VValue] else []
+    if is_nil names then [VIanEmpty]
+    else if negb (forallb gn_is_rfc822_or_uri names) then [VValue] else []
   | _, _ => [VDecode]
   end.
 
